@@ -142,6 +142,7 @@ def make_harness(shape, scalar, nds, with_ndf):
             oc = cells(orc) if isinstance(orc, np.ndarray) else [orc]
             ok = len(oc) == len(flat) and (scalar or np.shape(orc) == (nds,) + tuple(shape))
             ex.check(ok, 'oracles-shape')
+            ok_orc = ok
             if ok:
                 for a, b in zip(oc, flat):
                     ex.check(O.iff(a, b), 'oracles-equal-per-bin-formula')
@@ -165,7 +166,12 @@ def make_harness(shape, scalar, nds, with_ndf):
                         ex.check(O.iff(a, b), 'test_pvalue-equals-per-bin-formula')
             # (a) verdict -- evaluated last: bool() forks
             verdict = bool(res)
-            ex.check(O.iff(verdict, O.band(*flat)), 'verdict-iff-every-bin-compatible')
+            if ok_orc and len(flat) > 3:
+                # decomposed: oracles()[i] <=> formula(i) was decided bin by bin above; what is left is
+                # verdict <=> all(oracles()), which keeps the query small for many bins
+                ex.check(O.iff(verdict, O.band(*oc)), 'verdict-iff-every-bin-compatible')
+            else:
+                ex.check(O.iff(verdict, O.band(*flat)), 'verdict-iff-every-bin-compatible')
     return harness
 
 
